@@ -746,6 +746,35 @@ def gen_coords_kwargs(job, workdir):
 REJECT_TYPES = (IOError, OSError, NotImplementedError)
 
 
+def _pre_call(job, workdir, kw):
+    from polyply.src.gen_coords import gen_coords
+    from vermouth.file_writer import DeferredFileWriter
+    inp = os.path.join(workdir, "input.gro")
+    with open(inp, "w") as fh:
+        fh.write(job["pre_coord_text"])
+    kw2 = dict(kw)
+    kw2["outpath"] = Path(workdir) / "pre_out.gro"
+    for k in ("build_res", "ignore"):
+        kw2.pop(k, None)
+    random.seed(12345)
+    np.random.seed(12345)
+    cwd = os.getcwd()
+    os.chdir(workdir)
+    try:
+        gen_coords(**kw2)
+    except Exception:
+        try:
+            DeferredFileWriter().close()
+        except Exception:
+            pass
+    finally:
+        os.chdir(cwd)
+        with open(inp, "w") as fh:
+            fh.write(job["coord_text"])
+        # make sure a stat based cache would see a change as well
+        os.utime(inp, (1, 1))
+
+
 def run(job, props=("C03", "C04", "C05", "C06", "C07", "C15", "C17"), keep_dir=None):
     """Execute one world-A job.  Returns the result dict of simkit.driver."""
     global CTX
@@ -775,6 +804,10 @@ def run(job, props=("C03", "C04", "C05", "C06", "C07", "C15", "C17"), keep_dir=N
             DeferredFileWriter().close() if hasattr(DeferredFileWriter(), "close") else None
         except Exception:
             pass
+        if job.get("pre_coord_text") is not None and job.get("coord_text") is not None:
+            # history: an earlier gen_coords call in this process read ANOTHER structure from the same input path
+            _pre_call(job, workdir, kw)
+            ctx.probe("earlier_call_same_input_path")
         saved = _install(ctx)
         random.seed(sysrng.getrandbits(32))
         np.random.seed(sysrng.getrandbits(32))
